@@ -591,6 +591,43 @@ def check_multi_scope(states):
     return out
 
 
+def check_unnamed_objects():
+    """Sorting (directly, through a function, through the pass) moves nodes; it must not touch anything else: nodes
+    and values whose names were reset to None stay unnamed, in an order that is already valid and in one that is not."""
+    from onnx_ir.passes.common import TopologicalSortPass
+
+    out = []
+    for order in ("sorted", "unsorted"):
+        for via in ("graph", "function", "pass"):
+            x = ir.Value(name="x")
+            a = ir.Node("", "Relu", [x], name="a")
+            b = ir.Node("", "Neg", [a.outputs[0]], name="b")
+            a.outputs[0].name, b.outputs[0].name = "a_o", "b_o"
+            g = ir.Graph([x], [b.outputs[0]], nodes=[a, b] if order == "sorted" else [b, a], name="g", opset_imports={"": 20})
+            a.name = None
+            b.name = None
+            a.outputs[0].name = None
+            before = ([n.name for n in (a, b)], [a.outputs[0].name, b.outputs[0].name])
+            try:
+                if via == "graph":
+                    g.sort()
+                elif via == "function":
+                    ir.Function("local", "F", "", graph=g, attributes=[]).sort()
+                else:
+                    res = TopologicalSortPass()(ir.Model(g, ir_version=10))
+                    if order == "sorted" and res.modified:
+                        out.append(("pass_reports_modified_for_an_order_that_was_valid", (order, via)))
+            except Exception as e:  # noqa: BLE001
+                out.append(("sort_raises_on_unnamed_objects", (order, via, f"{type(e).__name__}: {e}"[:80])))
+                continue
+            after = ([n.name for n in (a, b)], [a.outputs[0].name, b.outputs[0].name])
+            if after != before and order == "sorted":  # "a graph already in such an order is left exactly as it was"
+                out.append(("sorting_an_already_sorted_graph_changed_names", (order, via, before, after)))
+            if [n for n in g] != [a, b]:
+                out.append(("result_not_topological", (order, via)))
+    return out
+
+
 def _ms_work(task):
     found = {}
     n = 0
@@ -618,6 +655,8 @@ def main(tier):
     hs = list(gen_history_structs())
     hstep = max(1, len(hs) // 64)
     res += common.pmap(_history_work, [hs[i:i + hstep] for i in range(0, len(hs), hstep)])
+    for clause, detail in check_unnamed_objects():
+        res.append(("unnamed_objects", 6, 0, 0, {f"unnamed_objects|{clause}": {"struct": {"unnamed_objects": True}, "via": "graph", "clause": clause, "detail": detail}}))
     ms = list(itertools.product(MS_STATES, repeat=3))
     res += common.pmap(_ms_work, [ms[i:i + 16] for i in range(0, len(ms), 16)])
     per = {}
@@ -630,7 +669,9 @@ def main(tier):
         for k, v in f.items():
             found.setdefault(k, v)
     for key, f in sorted(found.items()):
-        if f["struct"].get("multi_scope"):
+        if f["struct"].get("unnamed_objects"):
+            v2 = v3 = check_unnamed_objects()
+        elif f["struct"].get("multi_scope"):
             v2 = check_multi_scope(tuple(f["struct"]["multi_scope"]))
             v3 = check_multi_scope(tuple(f["struct"]["multi_scope"]))
         elif f["struct"].get("history_edit"):
@@ -664,6 +705,9 @@ def replay(obj):
         return x
 
     s = obj["input"]
+    if s.get("unnamed_objects"):
+        v = check_unnamed_objects()
+        return (not [x for x in v if x[0] == obj["oracle"]]), v
     if s.get("multi_scope"):
         v = check_multi_scope(tuple(s["multi_scope"]))
         return (not [x for x in v if x[0] == obj["oracle"]]), v
